@@ -13,7 +13,15 @@ From FV Require Import Common.EventLog.
 Import ListNotations.
 Local Open Scope N_scope.
 
-Definition byte := N.                       (* 0..255 *)
+Definition byte := N.                       (* one CHARACTER (element) of the string: 0..2^bits-1; "byte" for Char = char *)
+(* the character type Char: width and signedness (char, wchar_t signed; char16_t, char32_t unsigned on x86-64).
+   Memory, views, offsets, lengths and read ranges are all in ELEMENTS; cw converts to bytes. *)
+Record cty := mkC { c_bits : N; c_signed : bool }.
+Definition char_t : cty := mkC 8 true.
+Definition char16_t : cty := mkC 16 false.
+Definition char32_t : cty := mkC 32 false.
+Definition wchar_t : cty := mkC 32 true.
+Definition cw (ct : cty) : N := c_bits ct / 8.          (* sizeof(Char) *)
 Definition mem := list (nat * list byte).   (* buffer id -> contents; the length is exact *)
 Definition MAX64 : N := 18446744073709551615.   (* size_t(-1) *)
 Definition W64 : N := 18446744073709551616.
@@ -217,15 +225,19 @@ Definition to_number_with (step : acc) (t : ity) (v : view) : R (option N) :=
   num_loop step t v (N.to_nat (vlen v)) 0 0.
 Definition to_number := to_number_with acc_checked.
 
-(* ---- hash<basic_string_view<char>> / hash<basic_string<char>>: hash += 31*hash + string[i]
-   in unsigned int; char is signed, so bytes >= 128 are sign-extended *)
-Definition sext32 (x : byte) : N := if x <? 128 then x else x + (W32 - 256).
-Fixpoint hash_loop (v : view) (k : nat) (i : N) (h : N) : R N :=
+(* the value of a character as the integer the C++ expression sees *)
+Definition sval (ct : cty) (x : byte) : Z :=
+  if c_signed ct && (2 ^ (c_bits ct - 1) <=? x) then (Z.of_N x - Z.of_N (2 ^ c_bits ct))%Z else Z.of_N x.
+
+(* ---- hash<basic_string_view<Char>> / hash<basic_string<Char>>: hash += 31*hash + string[i] in unsigned int;
+   the character is converted to unsigned int (sign-extended when Char is signed) *)
+Definition sext32 (ct : cty) (x : byte) : N := Z.to_N (sval ct x mod 4294967296).
+Fixpoint hash_loop (ct : cty) (v : view) (k : nat) (i : N) (h : N) : R N :=
   match k with
   | O => retR h
-  | S k' => x <- rd m v i ;; hash_loop v k' (i + 1) ((h + (31 * h + sext32 x)) mod W32)
+  | S k' => x <- rd m v i ;; hash_loop ct v k' (i + 1) ((h + (31 * h + sext32 ct x)) mod W32)
   end.
-Definition hash_view (v : view) : R N := hash_loop v (N.to_nat (vlen v)) 0 0.
+Definition hash_view (ct : cty) (v : view) : R N := hash_loop ct v (N.to_nat (vlen v)) 0 0.
 
 (* ---- compare: length first, then the first differing char (signed comparison) *)
 Definition schar (x : byte) : Z := if x <? 128 then Z.of_N x else (Z.of_N x - 256)%Z.
@@ -238,6 +250,18 @@ Fixpoint cmp_loop (a : view) (bp : ptr) (k : nat) (i : N) : R Z :=
   end.
 Definition compare_len (a : view) (bp : ptr) (blen : N) : R Z :=
   if vlen a =? blen then cmp_loop a bp (N.to_nat (vlen a)) 0
+  else retR (if vlen a <? blen then (-1)%Z else 1%Z).
+(* the same for any character type (the definitions above are the instance Char = char, kept under their names
+   because the translator tie Props/Properties_TIE_str.v refers to them; StrProofs2.compare_len_g_char) *)
+Fixpoint cmp_loop_g (ct : cty) (a : view) (bp : ptr) (k : nat) (i : N) : R Z :=
+  match k with
+  | O => retR 0%Z
+  | S k' => x <- rd m a i ;; y <- readp m bp i ;;
+            if x =? y then cmp_loop_g ct a bp k' (i + 1)
+            else retR (if (sval ct x <? sval ct y)%Z then (-1)%Z else 1%Z)
+  end.
+Definition compare_len_g (ct : cty) (a : view) (bp : ptr) (blen : N) : R Z :=
+  if vlen a =? blen then cmp_loop_g ct a bp (N.to_nat (vlen a)) 0
   else retR (if vlen a <? blen then (-1)%Z else 1%Z).
 
 End Views.
@@ -351,13 +375,13 @@ Definition s_append_view (s : str) (v : view) : M str := s_append s (tail_view v
 Definition s_append_char (s : str) (c : byte) : M str := s_append s (tail_char c) 1.
 Definition s_push_back := s_append_char.
 (* compare / == *)
-Definition s_compare (a b : str) : M Z :=
-  liftR (fun m => compare_len m (str_view a) (str_ptr b) (slen b)).
-Definition s_compare_cstr (a : str) (p : ptr) : M Z :=
-  liftR (fun m => n <- generic_strlen m p ;; compare_len m (str_view a) p n).
+Definition s_compare (ct : cty) (a b : str) : M Z :=
+  liftR (fun m => compare_len_g m ct (str_view a) (str_ptr b) (slen b)).
+Definition s_compare_cstr (ct : cty) (a : str) (p : ptr) : M Z :=
+  liftR (fun m => n <- generic_strlen m p ;; compare_len_g m ct (str_view a) p n).
 Definition s_starts_with (a : str) (v : view) : M bool := liftR (fun m => starts_with m (str_view a) v).
 Definition s_ends_with (a : str) (v : view) : M bool := liftR (fun m => ends_with m (str_view a) v).
-Definition hash_str (a : str) : M N := liftR (fun m => hash_view m (str_view a)).
+Definition hash_str (ct : cty) (a : str) : M N := liftR (fun m => hash_view m ct (str_view a)).
 
 (* ---- script level: tables of source buffers, views and strings (what comp/str/driver.ml and
    comp/str/harness.cpp both interpret) *)
@@ -387,9 +411,9 @@ Inductive out :=
 | OutView (v : view) (txt : list byte) | OutStr (k : nat) (s : str) (buf : option (list byte))
 | OutBad.     (* malformed script (index out of range / dead slot): generator bug *)
 
-Record world := mkW { wst : st; wbufs : list nat; wviews : list view; wstrs : list (option str) }.
+Record world := mkW { wct : cty; wst : st; wbufs : list nat; wviews : list view; wstrs : list (option str) }.
 Definition st0 : st := mkSt [] 1 [] [].
-Definition world0 : world := mkW st0 [] [] [].
+Definition world0 (ct : cty) : world := mkW ct st0 [] [] [].
 
 Definition get_str (w : world) (k : nat) : option str :=
   match nth_error (wstrs w) k with Some (Some s) => Some s | _ => None end.
@@ -452,7 +476,7 @@ Definition do_op (w : world) (o : op) : M (out * effect) :=
   | OSw a b => pure_out (with_view w a (fun va => with_view w b (fun vb => lift_out (fun m => starts_with m va vb) OutB)))
   | OEw a b => pure_out (with_view w a (fun va => with_view w b (fun vb => lift_out (fun m => ends_with m va vb) OutB)))
   | ONum sg bits a => pure_out (with_view w a (fun va => lift_out (fun m => to_number m (mkT sg bits) va) OutOpt))
-  | OHashV a => pure_out (with_view w a (fun va => lift_out (fun m => hash_view m va) OutN))
+  | OHashV a => pure_out (with_view w a (fun va => lift_out (fun m => hash_view m (wct w) va) OutN))
   | OStrlen b off => pure_out (with_ptr w b off (fun p => lift_out (fun m => generic_strlen m p) OutN))
   | OStrnlen b off mx => pure_out (with_ptr w b off (fun p => lift_out (fun m => generic_strnlen m p mx) OutN))
   | OSNew => s <~ s_default ;; retM (OutUnit, FNewStr s)
@@ -503,11 +527,11 @@ Definition do_op (w : world) (o : op) : M (out * effect) :=
       | None => retM (OutBad, FNone) end
   | OSCmp a b =>
       match get_str w a, get_str w b with
-      | Some sa, Some sb => z <~ s_compare sa sb ;; retM (OutZ z, FNone)
+      | Some sa, Some sb => z <~ s_compare (wct w) sa sb ;; retM (OutZ z, FNone)
       | _, _ => retM (OutBad, FNone) end
   | OSCmpC a b off =>
       match get_str w a, buf_ptr w b off with
-      | Some sa, Some p => z <~ s_compare_cstr sa p ;; retM (OutZ z, FNone)
+      | Some sa, Some p => z <~ s_compare_cstr (wct w) sa p ;; retM (OutZ z, FNone)
       | _, _ => retM (OutBad, FNone) end
   | OSSw k a =>
       match get_str w k, eval_vexp w a with
@@ -519,7 +543,7 @@ Definition do_op (w : world) (o : op) : M (out * effect) :=
       | _, _ => retM (OutBad, FNone) end
   | OSHash k =>
       match get_str w k with
-      | Some s => h <~ hash_str s ;; retM (OutN h, FNone)
+      | Some s => h <~ hash_str (wct w) s ;; retM (OutN h, FNone)
       | None => retM (OutBad, FNone) end
   | OSDetach k =>
       (* p = s.data(); s.detach(); the caller now owns p and (in the scripts) frees it at once *)
@@ -538,12 +562,12 @@ Definition do_op (w : world) (o : op) : M (out * effect) :=
 
 Definition apply_effect (w : world) (s : st) (f : effect) : world :=
   match f with
-  | FNone => mkW s (wbufs w) (wviews w) (wstrs w)
-  | FNewBuf id => mkW s (wbufs w ++ [id]) (wviews w) (wstrs w)
-  | FNewView v => mkW s (wbufs w) (wviews w ++ [v]) (wstrs w)
-  | FNewStr x => mkW s (wbufs w) (wviews w) (wstrs w ++ [Some x])
-  | FSetStr k x => mkW s (wbufs w) (wviews w) (set_nth (wstrs w) k x)
-  | FSet2 a sa b sb => mkW s (wbufs w) (wviews w) (set_nth (set_nth (wstrs w) a (Some sa)) b (Some sb))
+  | FNone => mkW (wct w) s (wbufs w) (wviews w) (wstrs w)
+  | FNewBuf id => mkW (wct w) s (wbufs w ++ [id]) (wviews w) (wstrs w)
+  | FNewView v => mkW (wct w) s (wbufs w) (wviews w ++ [v]) (wstrs w)
+  | FNewStr x => mkW (wct w) s (wbufs w) (wviews w) (wstrs w ++ [Some x])
+  | FSetStr k x => mkW (wct w) s (wbufs w) (wviews w) (set_nth (wstrs w) k x)
+  | FSet2 a sa b sb => mkW (wct w) s (wbufs w) (wviews w) (set_nth (set_nth (wstrs w) a (Some sa)) b (Some sb))
   end.
 
 (* which string (if any) an op changed or created: its state is printed after the op *)
@@ -561,13 +585,16 @@ Definition str_state (w : world) (k : nat) : out :=
   | None => OutBad
   end.
 
+(* allocation sizes are printed in BYTES: sizeof(Char) * elements (the log kept in the state counts elements) *)
+Definition scale_ev (k : N) (e : ev) : ev :=
+  match e with EAlloc b n => EAlloc b (k * n) | EDealloc b n => EDealloc b (k * n) | _ => e end.
 (* one script line: result, the states of the strings it touched, the events it emitted *)
 Definition step (w : world) (o : op) : outcome (list out * list ev) * world :=
   match do_op w o (wst w) with
   | (Ok (r, f), s2) =>
       let w' := apply_effect w s2 f in
-      (Ok (r :: map (str_state w') (touched w f), skipn (length (sevs (wst w))) (sevs s2)), w')
-  | (e, s2) => (errR e, mkW s2 (wbufs w) (wviews w) (wstrs w))
+      (Ok (r :: map (str_state w') (touched w f), map (scale_ev (cw (wct w))) (skipn (length (sevs (wst w))) (sevs s2))), w')
+  | (e, s2) => (errR e, mkW (wct w) s2 (wbufs w) (wviews w) (wstrs w))
   end.
 
 (* end of the script: every live string is destroyed, in slot order *)
@@ -579,6 +606,6 @@ Fixpoint destroy_all (l : list (option str)) : M unit :=
   end.
 Definition finish (w : world) : outcome (list ev) * st :=
   match destroy_all (wstrs w) (wst w) with
-  | (Ok _, s2) => (Ok (skipn (length (sevs (wst w))) (sevs s2)), s2)
+  | (Ok _, s2) => (Ok (map (scale_ev (cw (wct w))) (skipn (length (sevs (wst w))) (sevs s2))), s2)
   | (e, s2) => (errR e, s2)
   end.
